@@ -103,6 +103,10 @@ void run_threads(vh::Case& c, const char* cls, uint64_t P, bool prime_field, int
 }
 
 void tsan_case(vh::Case& c) {
+  // Workaround: with the runtime's SIGABRT handler installed, a ThreadSanitizer report under
+  // TSAN_OPTIONS=abort_on_error=1 never terminates the process (the shard hangs instead of dying).
+  // Restoring the default disposition lets the orchestrator see the death and attribute it to this case.
+  signal(SIGABRT, SIG_DFL);
   const int nops = c.thorough ? 20000 : 4000;
   switch (c.k % 8) {
     case 0: run_threads<Zp_field_element<7>>(c, "Zp_field_element", 7, true, nops); break;
